@@ -135,6 +135,14 @@ def classify(A, res, path):
                 oid = o["oid"]
                 where = o
                 break
+            if kind == "precondition" and o.get("k") == "clause" and o.get("kw") == "requires" and not o.get("name", "").startswith("requires#"):
+                # a NAMED requires clause of the callee failed at a call site: the name (with its property tags) identifies it
+                caller = None
+                for p_ in prim:
+                    caller = A.origin[p_["line_start"] - 1].get("fn")
+                oid = f"{A.unit}/{caller or o.get('fn')}/{o['name']}@call-of-{o.get('fn')}"
+                where = dict(o, fn=caller or o.get("fn"))
+                break
         if canary_hit:
             continue
         named = oid is not None
